@@ -771,27 +771,25 @@ Qed.
 
 Lemma validate_type_nokind rs nd k : (k = KCrash \/ k = KOutOfFuel) -> nokind k (validate_type rs nd).
 Proof.
-  intro Hk. destruct nd as [n d]. unfold validate_type.
-  apply nokind_app; [unfold name_ok; destruct Hk as [-> | ->]; nk|].
-  destruct d as [s|fs ifs|fs ifs|ms|vs|o fs].
+  intro Hk. destruct nd as [n d]. unfold validate_type. cbn [fst snd].
+  assert (Hn : nokind k (name_ok n)) by (unfold name_ok; destruct Hk as [-> | ->]; nk).
+  assert (Hfs : forall fs, nokind k (validate_fields rs fs)).
+  { intro fs. unfold validate_fields, validate_field, name_ok.
+    apply nokind_app; [destruct Hk as [-> | ->]; nk|]. apply nokind_flat_map. intro f.
+    apply nokind_app; [destruct Hk as [-> | ->]; nk|].
+    apply nokind_app; [destruct Hk as [-> | ->]; nk|]. apply nokind_flat_map. intro a.
+    apply validate_inval_nokind. exact Hk. }
+  destruct d as [s|fs ifs|fs ifs|ms|vs|o fs|]; cbn [validate_type_body];
+    try (apply nokind_app; [exact Hn|]).
   - apply nokind_nil.
-  - apply nokind_app; [|apply validate_ifaces_nokind; exact Hk].
-    unfold validate_fields, validate_field, name_ok.
-    apply nokind_app; [destruct Hk as [-> | ->]; nk|]. apply nokind_flat_map. intro f.
-    apply nokind_app; [destruct Hk as [-> | ->]; nk|].
-    apply nokind_app; [destruct Hk as [-> | ->]; nk|]. apply nokind_flat_map. intro a.
-    apply validate_inval_nokind. exact Hk.
-  - apply nokind_app; [|apply validate_ifaces_nokind; exact Hk].
-    unfold validate_fields, validate_field, name_ok.
-    apply nokind_app; [destruct Hk as [-> | ->]; nk|]. apply nokind_flat_map. intro f.
-    apply nokind_app; [destruct Hk as [-> | ->]; nk|].
-    apply nokind_app; [destruct Hk as [-> | ->]; nk|]. apply nokind_flat_map. intro a.
-    apply validate_inval_nokind. exact Hk.
+  - apply nokind_app; [apply Hfs | apply validate_ifaces_nokind; exact Hk].
+  - apply nokind_app; [apply Hfs | apply validate_ifaces_nokind; exact Hk].
   - apply nokind_app; [destruct Hk as [-> | ->]; nk | apply validate_members_nokind; exact Hk].
   - unfold name_ok. destruct Hk as [-> | ->]; nk.
   - apply nokind_app; [destruct Hk as [-> | ->]; nk|]. apply nokind_flat_map. intro a.
     unfold validate_input_field. apply nokind_app; [apply validate_inval_nokind; exact Hk|].
     destruct o; destruct Hk as [-> | ->]; nk.
+  - destruct Hk as [-> | ->]; nk.
 Qed.
 
 Lemma cycle_reports_nokind {B} k0 (o : option (dstate B)) k :
@@ -810,6 +808,7 @@ Proof.
       destruct (s_query rs), (s_mutation rs), (s_subscription rs); destruct Hk as [-> | ->]; nk. }
     apply nokind_app.
     { apply nokind_flat_map. intro d. unfold validate_directive, name_ok.
+      destruct (d_isdir d); [|destruct Hk as [-> | ->]; nk].
       apply nokind_app; [destruct Hk as [-> | ->]; nk|].
       apply nokind_app; [destruct Hk as [-> | ->]; nk|].
       apply nokind_flat_map. intro a. apply validate_inval_nokind. exact Hk. }
@@ -877,7 +876,7 @@ Definition InvalOK (rs : raw_schema) (iv : inval) : Prop :=
   /\ DefaultOK rs (iv_type iv) (iv_default iv).
 
 Definition DirectiveOK (rs : raw_schema) (d : directive) : Prop :=
-  reserved (d_name d) = false /\ d_haslocs d = true /\ Forall (InvalOK rs) (d_args d).
+  d_isdir d = true /\ reserved (d_name d) = false /\ d_haslocs d = true /\ Forall (InvalOK rs) (d_args d).
 
 Definition FieldOK (rs : raw_schema) (f : field) : Prop :=
   reserved (f_name f) = false /\ is_output_tref rs (f_type f) = true /\ Forall (InvalOK rs) (f_args f).
@@ -904,6 +903,7 @@ Definition OneOfOK (iv : inval) : Prop := is_nonnull (iv_type iv) = false /\ iv_
 Definition TypeOK (rs : raw_schema) (nd : N * tdef) : Prop :=
   reserved (fst nd) = false /\
   match snd nd with
+  | DBogus => False
   | DScalar _ => True
   | DObject fs ifs | DInterface fs ifs =>
       fs <> [] /\ Forall (FieldOK rs) fs /\ NoDup ifs /\ Forall (IfaceOK rs (fst nd) fs ifs) ifs
@@ -1060,7 +1060,7 @@ Proof.
             [intro H; first [apply LV_nonnull | apply LV_item]; try discriminate; auto
             | intro H; inv H; auto; try congruence;
               match goal with Hx : forall vs, _ <> LList vs |- _ => exfalso; eapply Hx; reflexivity end ]).
-  all: try (cbn; destruct (lookup rs n) as [[s|?|?|?|ws|o fs]|] eqn:El;
+  all: try (cbn; destruct (lookup rs n) as [[s|?|?|?|ws|o fs|]|] eqn:El;
             try rewrite ofb_valid;
             (split; [intro H; try discriminate;
                      first [ eapply LV_scalar; [discriminate | exact El | exact H]
@@ -1074,7 +1074,7 @@ Proof.
       exfalso. match goal with Hx : forall vs0, _ <> LList vs0 |- _ => eapply Hx; reflexivity end.
     + revert IHF. apply Forall_impl. intros x Hx. apply Hx.
   - (* LObj at TNamed *)
-    cbn. destruct (lookup rs n) as [[s|?|?|?|ws|o fs]|] eqn:El.
+    cbn. destruct (lookup rs n) as [[s|?|?|?|ws|o fs|]|] eqn:El.
     + rewrite ofb_valid. split.
       * intro H. eapply LV_scalar; [discriminate | exact El | exact H].
       * intro H. inv H; rewrite El in *; congruence.
@@ -1113,6 +1113,7 @@ Proof.
         split; [assumption|]. split; [assumption|]. destruct oneof; [|reflexivity]. cbn.
         apply (oneof_ok_spec fs0 kvs); [|auto].
         intros k x Hin. destruct (H3 k x Hin) as [f [E _]]. eauto.
+    + split; [discriminate | intro H; inv H; rewrite El in *; congruence].
     + split; [discriminate | intro H; inv H; rewrite El in *; congruence].
 Qed.
 
@@ -1167,8 +1168,9 @@ Proof. rewrite flat_map_nil. apply Forall_iff. intro. apply validate_inval_nil. 
 
 Lemma validate_directive_nil rs d : validate_directive rs d = [] <-> DirectiveOK rs d.
 Proof.
-  unfold validate_directive, DirectiveOK, name_ok.
-  rewrite !app_nil_iff, !chk_nil, negb_true_iff, validate_invals_nil. tauto.
+  unfold validate_directive, DirectiveOK, name_ok. destruct (d_isdir d).
+  - rewrite !app_nil_iff, !chk_nil, negb_true_iff, validate_invals_nil. tauto.
+  - split; [discriminate | intros [H _]; discriminate].
 Qed.
 
 Lemma validate_field_nil rs f : validate_field rs f = [] <-> FieldOK rs f.
@@ -1294,8 +1296,8 @@ Qed.
 Lemma validate_type_nil rs nd : validate_type rs nd = [] <-> TypeOK rs nd.
 Proof.
   destruct nd as [n d]. unfold validate_type, TypeOK, name_ok. cbn [fst snd].
-  rewrite app_nil_iff, chk_nil, negb_true_iff.
-  destruct d as [s|fs ifs|fs ifs|ms|vs|o fs].
+  destruct d as [s|fs ifs|fs ifs|ms|vs|o fs|]; cbn [validate_type_body];
+    try rewrite app_nil_iff, chk_nil, negb_true_iff.
   - tauto.
   - rewrite fields_ifaces_nil. tauto.
   - rewrite fields_ifaces_nil. tauto.
@@ -1311,6 +1313,7 @@ Proof.
     + intros [H0 [H1 [H2 H3]]]. repeat split; auto. destruct o.
       * specialize (H3 eq_refl). revert H3. apply Forall_impl. auto.
       * apply Forall_forall. intros x _ Hd. discriminate.
+  - split; [discriminate | tauto].
 Qed.
 
 (* --- cycle reports *)
